@@ -28,6 +28,10 @@ type Threads struct {
 	running bool
 	omu     sync.Mutex
 	owner   map[uint64]*thread
+	// Free: no scheduling at all — Run starts every thread as a free-running goroutine and waits for them; Yield is a no-op.
+	// Used only by the separate race-detector pass (a cooperative scheduler's hand-offs are happens-before edges that
+	// blind the detector).
+	Free bool
 }
 
 type thread struct {
@@ -124,6 +128,25 @@ func (s *Threads) Current() string {
 
 // Run executes all threads to completion under the schedule chosen by the Run.
 func (s *Threads) Run() {
+	if s.Free {
+		var wg sync.WaitGroup
+		for _, t := range s.threads {
+			wg.Add(1)
+			go func(t *thread) {
+				defer wg.Done()
+				defer func() {
+					if p := recover(); p != nil {
+						s.omu.Lock()
+						s.Panics = append(s.Panics, fmt.Sprintf("thread %s panicked: %v\n%s", t.name, p, debug.Stack()))
+						s.omu.Unlock()
+					}
+				}()
+				t.fn()
+			}(t)
+		}
+		wg.Wait()
+		return
+	}
 	s.running = true
 	defer func() { s.running = false }()
 	for {
